@@ -205,6 +205,16 @@ def diamond():
     return es, ["m", "n", "k0", "k1"]
 
 
+def skip3():
+    """three Einsums with a skip connection: T1 feeds both E1 and E2"""
+    es = [
+        {"name": "E0", "tensors": [["T0", ["m", "n0"], False], ["W0", ["n0", "n1"], False], ["T1", ["m", "n1"], True]]},
+        {"name": "E1", "tensors": [["T1", ["m", "n1"], False], ["W1", ["n1", "n2"], False], ["T2", ["m", "n2"], True]]},
+        {"name": "E2", "tensors": [["T1", ["m", "n1"], False], ["T2", ["m", "n2"], False], ["T3", ["m", "n2"], True]]},
+    ]
+    return es, ["m", "n0", "n1", "n2"]
+
+
 def matmul_ab():
     return ([{"name": "Z", "tensors": [["A", ["m", "k"], False], ["B", ["k", "n"], False], ["Z", ["m", "n"], True]]}],
             ["m", "k", "n"])
@@ -233,6 +243,8 @@ def workloads(draw, shapes=("matmul", "chain2", "matvec", "elementwise"), bound_
         es, rvs = elementwise(2)
     elif shape == "diamond":
         es, rvs = diamond()
+    elif shape == "skip3":
+        es, rvs = skip3()
     else:
         raise ValueError(shape)
     pool = bound_pool or BOUND_POOL
